@@ -645,7 +645,7 @@ func (ex *Exec) doCall(fr *frame, st *State, cc *ssa.CallCommon, fnv Val, args [
 
 // callKnown dispatches a call whose target function is known.
 func (ex *Exec) callKnown(fr *frame, st *State, cc *ssa.CallCommon, callee *ssa.Function, bind []Val, args []Val, pos string, setRes func(Val)) {
-	c := ex.P.ContractFor(callee)
+	c, atSite := ex.P.ContractForAt(callee, fr.fn)
 	if ex.topC != nil && ex.topC.NoCalls && ex.noOblige == 0 && !(ex.isOpaqueFn(callee) && c == nil) {
 		allowed := callee.Synthetic != ""
 		for _, a := range ex.topC.Allow {
@@ -663,6 +663,16 @@ func (ex *Exec) callKnown(fr *frame, st *State, cc *ssa.CallCommon, callee *ssa.
 	switch {
 	case c != nil && !c.Inline:
 		names, ptypes := sigNames(callee, c)
+		if atSite {
+			// call-site contract: the caller's parameters are visible as caller.<name>
+			for _, cp := range fr.fn.Params {
+				if v, ok := st.vals[cp]; ok {
+					names = append(names, "caller."+cp.Name())
+					ptypes = append(ptypes, cp.Type())
+					args = append(args, v)
+				}
+			}
+		}
 		setRes(ex.contractCall(fr, st, c, ex.fnName(callee), callee.Signature, names, ptypes, args, pos))
 	case ex.isOpaqueFn(callee) && c == nil:
 		ex.assumptions["opaque (no effect, unconstrained result): "+callee.String()] = true
